@@ -661,23 +661,42 @@ func c02g(c *Ctx) {
 	// the && group's right operand is the result of the single-operand call
 	// (ii) in parseBooleanExpression every right-side call requires !single
 	n := 0
-	for _, call := range callsToIn(be, rs) {
-		n++
-		d := c.PC(be).At(call.Block())
-		ok := !d.unknown && len(d.cs) > 0
-		for _, cj := range d.cs {
-			has := false
-			for _, l := range cj {
-				if l == "-$1" {
-					has = true
+	for _, m := range c.unitOf(be) {
+		// the helper's own `single` parameter: the parameter that receives be's $1 at every call site
+		singleLit, singleArg := "-$1", "$1"
+		if m.fn != be {
+			singleLit, singleArg = "", ""
+			for k := range m.fn.Params {
+				all := true
+				sites := callsToIn(be, m.fn)
+				for _, cs := range sites {
+					if k >= len(cs.Common().Args) || c.term(be, cs.Common().Args[k]) != "$1" {
+						all = false
+					}
+				}
+				if all && len(sites) > 0 {
+					singleLit, singleArg = fmt.Sprintf("-$%d", k), fmt.Sprintf("$%d", k)
 				}
 			}
-			if !has {
-				ok = false
-			}
 		}
-		c.Check(ok, fmt.Sprintf("right-side-call#%d/requires-not-single", n), c.W.Pos(call.Pos()), "the right-side parser is entered only when more than one operand is allowed", "parseRightSideExpression can be entered although a single operand was requested ["+d.String()+"]: the operand of && would absorb a following operator")
-		c.Check(c.term(be, call.Common().Args[2]) == "$1", fmt.Sprintf("right-side-call#%d/passes-single", n), c.W.Pos(call.Pos()), "single is passed on", "single flag not passed on")
+		for _, call := range callsToIn(m.fn, rs) {
+			n++
+			d := c.PC(m.fn).At(call.Block())
+			ok := !d.unknown && len(d.cs) > 0 && singleLit != ""
+			for _, cj := range d.cs {
+				has := false
+				for _, l := range cj {
+					if l == singleLit {
+						has = true
+					}
+				}
+				if !has {
+					ok = false
+				}
+			}
+			c.Check(ok, fmt.Sprintf("right-side-call#%d/requires-not-single", n), c.W.Pos(call.Pos()), "the right-side parser is entered only when more than one operand is allowed", "parseRightSideExpression can be entered although a single operand was requested ["+d.String()+"]: the operand of && would absorb a following operator")
+			c.Check(singleArg != "" && c.term(m.fn, call.Common().Args[2]) == singleArg, fmt.Sprintf("right-side-call#%d/passes-single", n), c.W.Pos(call.Pos()), "single is passed on", "single flag not passed on")
+		}
 	}
 	c.Check(n == 2, "right-side-call/sites", c.W.FuncPos(be), "two continuation sites (after a parenthesised group, after a leaf)", fmt.Sprintf("found %d calls of parseRightSideExpression in parseBooleanExpression, expected 2", n))
 	// single leaf returns the leaf itself
@@ -704,49 +723,57 @@ func c02h(c *Ctx) {
 		return
 	}
 	n := 0
-	for _, f := range []*ssa.Function{rs, be} {
-		for _, g := range []*ssa.Function{rs, be} {
-			for _, call := range callsToIn(f, g) {
-				n++
-				neg := call.Common().Args[3]
-				if g == be {
-					neg = call.Common().Args[2]
-				}
-				key := fmt.Sprintf("%s->%s#%d/negated", f.Name(), g.Name(), n)
-				pos := c.W.Pos(call.Pos())
-				wantParam := "$3"
-				if f == be {
-					wantParam = "$2"
-				}
-				nt := c.term(f, neg)
-				if nt == wantParam {
-					c.OK(key, pos, "negated flag passed on unchanged")
-					continue
-				}
-				// the nested call of parseBooleanExpression: phi(negated | !negated)
-				ph, isPhi := neg.(*ssa.Phi)
-				if !isPhi || f != be {
-					c.Bad(key, pos, "recursive call passes negated="+nt+", expected the caller's flag")
-					continue
-				}
-				okPlain, okFlip, okOther := false, false, true
-				for i, e := range ph.Edges {
-					pred := ph.Block().Preds[i]
-					must := c.edgeMust(be, pred, ph.Block())
-					et := c.term(be, e)
-					switch {
-					case et == "$2" && hasLit(must, `+($0.peekToken.Type == "(")`):
-						okPlain = true
-					case et == "!$2" && hasLit(must, `-($0.peekToken.Type == "(")`):
-						okFlip = true
-					default:
-						// only acceptable if the edge is infeasible (contradictory path condition)
-						if !edgeInfeasible(c, be, pred, ph.Block()) {
+	for _, root := range []*ssa.Function{rs, be} {
+		for _, m := range c.unitOf(root) {
+			f := m.fn
+			for _, g := range []*ssa.Function{rs, be} {
+				for _, call := range callsToIn(f, g) {
+					n++
+					neg := call.Common().Args[3]
+					if g == be {
+						neg = call.Common().Args[2]
+					}
+					key := fmt.Sprintf("%s->%s#%d/negated", f.Name(), g.Name(), n)
+					pos := c.W.Pos(call.Pos())
+					wantParam := "$3"
+					if root == be {
+						wantParam = "$2"
+					}
+					// the alternatives of the flag that is passed, in root's terms (a private
+					// helper is evaluated once per call site in root)
+					edges, ok := c.ctxEdges(root, m, neg, call.Block())
+					if !ok {
+						c.Unk(key, pos, "the helper "+f.Name()+" is not called directly from "+root.Name())
+						continue
+					}
+					same := len(edges) > 0
+					for _, e := range edges {
+						if e.term != wantParam {
+							same = false
+						}
+					}
+					if same {
+						c.OK(key, pos, "negated flag passed on unchanged")
+						continue
+					}
+					if root != be {
+						c.Bad(key, pos, "recursive call passes negated="+c.term(f, neg)+", expected the caller's flag")
+						continue
+					}
+					// the nested call of parseBooleanExpression: negated for '(' , !negated for '!('
+					okPlain, okFlip, okOther := false, false, true
+					for _, e := range edges {
+						switch {
+						case e.term == "$2" && hasLit(e.must, `+($0.peekToken.Type == "(")`):
+							okPlain = true
+						case e.term == "!$2" && hasLit(e.must, `-($0.peekToken.Type == "(")`):
+							okFlip = true
+						default:
 							okOther = false
 						}
 					}
+					c.Check(okPlain && okFlip && okOther, key, pos, "'(' keeps the flag, '!(' flips it", "the parenthesised sub-expression is not parsed with (negated for '(' / !negated for '!(')")
 				}
-				c.Check(okPlain && okFlip && okOther, key, pos, "'(' keeps the flag, '!(' flips it", "the parenthesised sub-expression is not parsed with (negated for '(' / !negated for '!(')")
 			}
 		}
 	}
